@@ -10,6 +10,18 @@
 (*   Second(1)    one single-token request                                 *)
 (*   Second(SAT)  floor(T) + 2 single-token requests (saturating demand)   *)
 (*                                                                         *)
+(* The control behaviour is a parameter of the rule (cfg.cb).  Reject: the *)
+(* admissions of a second are counted in the window, Second(SAT) admits    *)
+(* min(n, floor(allowed)).  Throttling: the admissions are SPACED by       *)
+(* 1/allowed, so Second(SAT) admits any member of Paced(allowed) (phase    *)
+(* carried over the second boundary, polling demand) and a single request  *)
+(* that follows a saturated second may still be inside the spacing owed to *)
+(* the last admission (refused or delayed into the second).  The statistic *)
+(* the calculator reads is the same in both modes (admitted tokens of the  *)
+(* previous second).                                                       *)
+(* Mut = "nopstat" is a spec-level MUTANT: a throttling rule reads an      *)
+(* empty statistic (previous QPS always 0) - WarmAfterSat must fail.       *)
+(*                                                                         *)
 (* All counters saturate at a configuration-dependent cap, so the state    *)
 (* space is finite WITHOUT a bound on time: the invariants below are       *)
 (* checked for histories of any length.                                    *)
@@ -22,7 +34,8 @@
 (***************************************************************************)
 EXTENDS WarmUpOps, Sequences, TLC
 
-CONSTANTS Configs,      \* set of [tn, td, p, c]
+CONSTANTS Configs,      \* set of [tn, td, p, c, cb]
+          Mut,          \* "none" | "nopstat" (spec-level mutant, see above)
           SAT,          \* marker for saturating demand
           InScope(_),   \* class of configurations the envelope invariants are stated for
           ExcuseStuck   \* TRUE: histories in which the token count rests exactly on the warning line are excused
@@ -53,7 +66,7 @@ Init ==
     /\ stored = 0 /\ gap = -1 /\ prev = 0
     /\ idle = IdleEnough(cfg) /\ sat = 0 /\ starve = 0 /\ stuck = FALSE
     /\ last = NoLast
-    /\ h = << [op |-> "new", tn |-> cfg.tn, td |-> cfg.td, p |-> cfg.p, c |-> cfg.c] >>
+    /\ h = << [op |-> "new", tn |-> cfg.tn, td |-> cfg.td, p |-> cfg.p, c |-> cfg.c, cb |-> cfg.cb] >>
 
 Quiet ==
     /\ gap' = IF gap < 0 THEN -1 ELSE Sat1(gap, cfg)
@@ -65,16 +78,28 @@ Quiet ==
     /\ h' = Append(h, [op |-> "sec", n |-> 0])
     /\ UNCHANGED <<cfg, stored>>
 
+\* the previous QPS the calculator reads from the statistic of the rule
+PrevSeen == IF Mut = "nopstat" /\ Throttled(cfg) THEN 0 ELSE prev
+\* tokens admitted out of n single-token requests of one second at effective threshold al (a set: throttling is a relation)
+Admitted(al, n) ==
+    IF ~Defined(al) THEN {n}                              \* "not a number" compares false with everything: nothing is blocked
+    ELSE IF ~Throttled(cfg) THEN {Min2(n, FloorR(al))}    \* at one instant: admitted while (k + 1) <= allowed
+    ELSE IF n > 1 THEN Paced(al)                          \* saturating demand over the whole second, spaced by 1/allowed
+    ELSE IF al.n < al.d THEN {0}                          \* one token alone exceeds the threshold
+    ELSE IF last.n > 1 /\ last.adm > 0 THEN {0, 1}        \* may still be inside the spacing owed to the previous second
+    ELSE {1}
+
 Busy(d) ==
-    LET st  == Sync(cfg, stored, gap, prev)
+    LET st  == Sync(cfg, stored, gap, PrevSeen)
         al  == Allowed(cfg, st)
         n   == IF d = SAT THEN FloorT(cfg) + 2 ELSE 1
-        \* single-token requests at one instant: admitted while (k + 1) <= allowed; "not a number" compares false
-        \* with everything, so nothing is ever blocked
-        adm == IF ~Defined(al) THEN n ELSE Min2(n, al.n \div al.d)
-    IN  /\ stored' = st /\ gap' = 1 /\ prev' = adm
+    IN  \E adm \in Admitted(al, n) :
+        /\ stored' = st /\ gap' = 1 /\ prev' = adm
         /\ idle' = 0 /\ stuck' = FALSE
-        /\ sat' = IF adm < n THEN Sat1(sat, cfg) ELSE 0
+        \* sustained demand: the second refused something; under throttling only a demand that is present throughout the
+        \* second counts (one request refused because it falls inside the spacing owed to the last admission is not
+        \* sustained demand: nothing is admitted, so nothing is drained)
+        /\ sat' = IF adm < n /\ (~Throttled(cfg) \/ n > 1) THEN Sat1(sat, cfg) ELSE 0
         /\ starve' = IF adm = 0 THEN Sat1(starve, cfg) ELSE 0
         /\ last' = [al |-> al, n |-> n, adm |-> adm, cold |-> idle >= IdleEnough(cfg), warm |-> sat >= WarmEnough(cfg),
                     stuck |-> stuck]
@@ -93,15 +118,21 @@ AllowedDefined == InScope(cfg) => Defined(last.al)
 AllowedInRange == (InScope(cfg) /\ Defined(last.al)) =>
                      /\ last.al.n >= 0 /\ last.al.d > 0
                      /\ last.al.n * cfg.td <= cfg.tn * last.al.d
-\* the admitted rate never exceeds the configured threshold
-AdmittedLeT == InScope(cfg) => last.adm * cfg.td <= cfg.tn
+\* the admitted rate never exceeds the configured threshold (reject: tokens per window; throttling: spacing)
+AdmittedLeT == InScope(cfg) => RateOK(cfg, last.adm)
 \* after the resource has been idle the rate starts no higher than about threshold / coldFactor
 ColdAfterIdle == (InScope(cfg) /\ last.cold /\ Defined(last.al) /\ ~(ExcuseStuck /\ last.stuck)) =>
                      last.al.n <= ColdCap(cfg) * last.al.d
 \* the same in observable form: the number admitted in such a second
 ColdAfterIdleObs == (InScope(cfg) /\ last.cold /\ ~(ExcuseStuck /\ last.stuck)) => last.adm <= ColdCap(cfg)
 \* after sustained (saturating) demand for the warm-up period the full threshold is reached
-WarmAfterSat == (InScope(cfg) /\ last.warm /\ last.n > 1) => last.adm = FloorT(cfg)
+\* (observable form: reject admits exactly floor(T) of the saturating demand, throttling paces it at T)
+WarmAfterSat == (InScope(cfg) /\ last.warm /\ last.n > 1) =>
+                    IF Throttled(cfg) THEN last.adm \in Paced([n |-> cfg.tn, d |-> cfg.td]) ELSE last.adm = FloorT(cfg)
+\* the same about the effective threshold itself, whatever the control behaviour (T >= 1: below that no token is ever
+\* admitted, so nothing is drained and the observable form holds trivially)
+WarmAfterSatThr == (InScope(cfg) /\ last.warm /\ last.n > 1 /\ Defined(last.al) /\ cfg.tn >= cfg.td) =>
+                       last.al.n * cfg.td = cfg.tn * last.al.d
 \* a steady single-token demand is never starved forever when the threshold is at least one
 NoStarvation == (InScope(cfg) /\ cfg.tn >= cfg.td) => starve < StarveBound(cfg)
 =============================================================================
